@@ -107,14 +107,19 @@ func readLines(path string) []string {
 	return out
 }
 
+var lockHints = map[string]string{}
+
 func loadLock() map[string][]string {
 	m := map[string][]string{}
 	for _, l := range readLines(filepath.Join(verifDir, "obligations.lock")) {
 		parts := strings.Split(l, "\t")
-		if len(parts) == 2 {
+		if len(parts) >= 2 {
 			m[parts[0]] = strings.Split(parts[1], ",")
 		} else {
 			m[parts[0]] = nil
+		}
+		if len(parts) >= 3 {
+			lockHints[parts[0]] = parts[2]
 		}
 	}
 	return m
@@ -234,11 +239,11 @@ func cmdLock(args []string) {
 			}
 			if oblOK(o) {
 				// only obligations that discharge comfortably enter the lock
-				if o.Kind != "cover" && o.TimeS > float64(*timeout)/2 {
+				if o.Kind != "cover" && o.Solver != "case-split" && o.TimeS > float64(*timeout)/2 {
 					und = append(und, o.Name+"\tslow: "+fmt.Sprintf("%.1fs", o.TimeS))
 					continue
 				}
-				lock = append(lock, o.Name+"\t"+ps)
+				lock = append(lock, o.Name+"\t"+ps+"\t"+strings.TrimSuffix(o.Solver, " (cached)"))
 			} else {
 				und = append(und, o.Name+"\t"+o.Status+" @"+o.Pos)
 			}
@@ -325,6 +330,11 @@ func cmdCheck(args []string) {
 	mine := func(g *FuncGen, o *Obligation) bool { return hasProp(propsOf(g.F, o), id) }
 	byName := map[string]*Obligation{}
 	genOf := map[string]*FuncGen{}
+	for _, g := range gens {
+		for _, o := range g.obls {
+			o.Hint = lockHints[o.Name]
+		}
+	}
 	s.solveAll(gens, func(o *Obligation) bool {
 		// undecided obligations are not run in the quick tier (they are not claimed)
 		if undecided[o.Name] && *tier == "quick" {
